@@ -45,7 +45,7 @@ CLAIMED = {
    "length 3 and 4 (2^24 + 2^32 strings: all characters, truncated / overlong / surrogate / out-of-range forms, every ill-formed byte as its own "
    "negative number); the codec round-trips; hence `explode | implode` is the identity on those strings. Character-wise slicing "
    "(skip_take_chars) follows an independent Unicode segmentation on every 3-byte string. The byte->character offset mapping behind every regex "
-   "result (regex::ByteChar::char_of_byte: match/scan/capture/splits/sub offsets) equals that segmentation for every 2-byte (quick) and 3-byte (thorough) "
+   "result (regex::ByteChar::char_of_byte: match/scan/capture/splits/sub offsets) equals that segmentation for every 2-byte (quick) and 3- and 4-byte (thorough) "
    "string and TWO consecutive queries with any offsets in any order (the decreasing order exercises the restart). Narrow: base64/URI/HTML codecs, the regex engine itself and Match.length, "
    "split/join, ascii_*case and every escaping formatter (@sh, @csv, @tsv, @json, @html, @uri) are outside the claim.",
    "Composition: implode works element by element (one push/extend per element), so per-element encoding + decoding + model round trip give the "
@@ -54,7 +54,8 @@ CLAIMED = {
    "Bounded model checking of the YAML plain-scalar round trip by composition through an INDEPENDENT interpolant written from the core schema "
    "(keyword, or optional sign then a digit / a dot and a digit / an infinity spelling): (R) if the real reader functions parse_int / parse_float "
    "resolve an ASCII string to a number, the string is number-like (all strings of length 1..4 for integers, 1..2 for floats, 3 thorough); (W) every "
-   "keyword- or number-like ASCII string of length 1..3 (4 thorough) is quoted by the real must_quote. R and W give: a text string written as a plain "
+   "keyword- or number-like ASCII string of length 1..3 (4 thorough) is quoted by the real must_quote, and so is every such string in the families "
+   "`.xxx` (4 bytes), sign + `.xxx` (5 bytes: the signed infinities) and `f`/`F` + 4 bytes (`false`), family prefix concrete, rest symbolic. R and W give: a text string written as a plain "
    "scalar is read back as a string. Narrow: saphyr's scanner between writer and reader, non-ASCII and longer strings, byte strings, keys, special "
    "floats, the reader's own schema conformance (e.g. `0x+f`), CBOR, TOML, XML, CSV/TSV and --from/--to are outside the claim.",
    "Stubs: Num::from_str_radix by a sign-and-digits model, <Num as Neg>::neg by the identity, alloc::fmt::format; the reader's keyword list is restated in the model. "
